@@ -42,6 +42,15 @@ def children(n):
     return out
 
 
+SHORTENING = re.compile(r"\.(take|skip|step_by|filter|rev|take_while|skip_while|filter_map|chain|nth|nth_back|last|dedup\w*|truncate|retain|split_off|drain)\(")
+
+
+def shortened(text):
+    """an iterator adaptor / list operation that drops, reorders or adds items, in a rendered traversal (None if plain)"""
+    m = SHORTENING.search(text)
+    return m.group(0)[1:-1] if m else None
+
+
 def _recv(n, R):
     """A range literal in receiver position is parenthesised: `(a..b).len()`, not `a..b.len()`."""
     p = peel(n)
